@@ -538,6 +538,10 @@ def vec_validate(trace, work):
                 props.add("C05")
         if cl in ("unexplained-diff", "diffs-missing") and not lag:
             props.add("C05")
+        if cl == "runaway":          # the poll panicked (or never settled): nothing can be replayed from this stream
+            props.add("C05")
+            if many and not lag:
+                props.add("C07")
         if many and not lag and cl in ("inapplicable", "unexplained-diff", "diffs-missing", "batch-not-up-to-date", "not-up-to-date-at-pending"):
             props.add("C07")
         v["props"] = tuple(sorted(props))
@@ -707,7 +711,9 @@ def ad_plans(prop, quick):
                                             PipeFlavs=both), sim_n(500, 6000))]
     if prop == "C11":
         K = {"sort", "sort_by", "sort_by_key"}
-        return [big(K), bigtree(K, {1}, {"batched"}), ("GSpec", "edge", ad_base(StageKinds=K, Depth=D, InitLens={3}, MaxLen=4, PipeFlavs={"batched"}), 0),
+        return [big(K), bigtree(K, {1}, {"batched"}),
+                ("GSpecTxnTree", "tree", ad_base(StageKinds=K, NStages={1}, Depth=7, InitLens={3}, MaxLen=8, PipeFlavs={"batched"}), 0),
+                ("GSpec", "edge", ad_base(StageKinds=K, Depth=D, InitLens={3}, MaxLen=4, PipeFlavs={"batched"}), 0),
                 ("GSpecCore", "tree", ad_base(StageKinds=K, Depth=D, CoreSet="full", InitLens={3}, MaxLen=5, PipeFlavs={"plain"}), 0),
                 ("GSpec", "edge", ad_base(StageKinds=K, Depth=D, Caps={1}, InitLens={2}, MaxLen=3), 0),
                 ("GSpecTxnSmall", "edge", ad_base(StageKinds=K, Depth=D + 2, InitLens={3}, MaxLen=5), 0),
@@ -721,7 +727,9 @@ def ad_plans(prop, quick):
                  sim_n(1500, 10000))]
     if prop == "C13":
         fixed = dict(Modes={"static"}, PipeFlavs={"twin", "batched"})
-        return [("GSpecTxnSmall", "edge", ad_base(StageKinds={"head", "tail", "skip", "filter", "sort"}, Depth=D + 2,
+        return [("GSpecTxnTree", "tree", ad_base(StageKinds=ALL_KINDS, NStages={1}, Depth=6 if quick else 7, InitLens={3}, Params={2},
+                                                 Modes={"static"}, MaxLen=8, PipeFlavs={"twin", "batched"}), 0),
+                ("GSpecTxnSmall", "edge", ad_base(StageKinds={"head", "tail", "skip", "filter", "sort"}, Depth=D + 2,
                                                   InitLens={0, 2}, Params={1}, MaxLen=4, Modes={"static"},
                                                   PipeFlavs={"twin"}), 0),
                 ("GSpecTxn", "sim", ad_base(StageKinds=ALL_KINDS, NStages={1, 2}, Depth=40, Caps={16, 64}, InitLens={0, 2, 5}, Params={0, 1, 3},
